@@ -18,8 +18,10 @@ ENSURES(RET == 1 IMPLIES (*recordlen >= 5 && *recordlen <= TLS_MAX_RECORD_SIZE))
 ;
 int tls13_gcm_decrypt(const BLOCK_CIPHER_KEY *key, const uint8_t iv[12], const uint8_t seq_num[8], const uint8_t *in, size_t inlen, int *record_type, uint8_t *out, size_t *outlen)
 REQUIRES(RD_OK(key, sizeof(*key)) && RD_OK(iv, 12) && RD_OK(seq_num, 8) && inlen <= TLS_MAX_RECORD_SIZE && (inlen == 0 || RD_OK(in, inlen)) && WR_OK(record_type, sizeof(int)) && WR_OK(outlen, sizeof(size_t)))
-REQUIRES(inlen <= 16 || WR_OK(out, inlen - 16))
-ASSIGNS(inlen > 16: OBJ_UPTO(out, inlen - 16); *record_type, *outlen, G_ev, G_gd13_calls, G_gd13_ret, G_gd13_key, G_gd13_iv, G_gd13_seq, G_gd13_in, G_gd13_inlen, G_gd13_out, G_gd13_type, G_gd13_ev)
+/* constant-size frame (the callers here pass conn->databuf, TLS_MAX_RECORD_SIZE bytes): a symbolic-size havoc inside the 63 KB
+   connection object exhausted memory */
+REQUIRES(WR_OK(out, TLS_MAX_RECORD_SIZE))
+ASSIGNS(OBJ_UPTO(out, TLS_MAX_RECORD_SIZE), *record_type, *outlen, G_ev, G_gd13_calls, G_gd13_ret, G_gd13_key, G_gd13_iv, G_gd13_seq, G_gd13_in, G_gd13_inlen, G_gd13_out, G_gd13_type, G_gd13_ev)
 ENSURES((RET == 1 || RET == -1) && G_gd13_calls == OLD(G_gd13_calls) + 1 && G_gd13_ret == RET && G_gd13_key == (size_t)key && G_gd13_iv == (size_t)iv && G_gd13_seq == (size_t)seq_num
 	&& G_gd13_in == (size_t)in && G_gd13_inlen == inlen && G_gd13_out == (size_t)out && G_ev == OLD(G_ev) + 1 && G_gd13_ev == G_ev)
 ENSURES(RET == 1 IMPLIES (inlen >= 17 && *outlen < inlen - 16 && G_gd13_type == *record_type && (*record_type == 20 || *record_type == 21 || *record_type == 22 || *record_type == 23)))
@@ -52,7 +54,7 @@ ENSURES((G_rr_ret == 1 && G_gd13_ret != 1) IMPLIES (RET == -1 && G_si_calls == 0
 #include "stubs_stdio.h"
 typedef struct { int is_client, sock; } t13r_in;
 DECL_INPUT(t13r_in);
-//@job name=tls13_do_recv props=C11 enforce=tls13_do_recv replace=tls_record_recv,tls13_gcm_decrypt,tls_seq_num_incr,tls_record_set_data timeout=1500 native=0 tier=thorough
+//@job name=tls13_do_recv props=C11 enforce=tls13_do_recv replace=tls_record_recv,tls13_gcm_decrypt,tls_seq_num_incr,tls_record_set_data timeout=1500 native=0
 void h_tls13_do_recv(void)
 {
 	INPUT(t13r_in, S);
